@@ -311,6 +311,18 @@ func c20Queries(x *engine.Exec, ref *pendRef) []engine.Failure {
 				if !bal.Equal(wantBal) {
 					add(fail("delegation", "balance", "AllianceDelegation(d%d,v%d,%s) balance %s, independent recomputation %s", d, v, den, bal, wantBal))
 				}
+				// the balance the query reports is priced exactly as Undelegate/Redelegate price the position's shares: the two
+				// are separate functions of the module (GetDelegationTokens / GetDelegationTokensWithShares)
+				if has {
+					if av, err := w.App.AllianceKeeper.GetAllianceValidator(ctx, w.Vals[v]); err == nil {
+						if asset, ok := s.Assets[den]; ok {
+							x.Cnt.Inc("query.balance_vs_undelegate_pricing")
+							if own := types.GetDelegationTokensWithShares(p.Raw.Shares, av, asset).Amount; !own.Equal(bal) {
+								add(fail("balance-pricing", "", "AllianceDelegation(d%d,v%d,%s) reports %s but Undelegate prices the same shares at %s", d, v, den, bal, own))
+							}
+						}
+					}
+				}
 				// binding query reports the same value
 				bres, berr := bindings.CustomQuerier(bindings.NewAllianceQueryPlugin(&w.App.AllianceKeeper))(ctx, mustJSON(btypes.AllianceQuery{Delegation: &btypes.Delegation{Denom: den, Delegator: w.Dels[d].String(), Validator: w.Vals[v].String()}}))
 				if has {
@@ -431,6 +443,10 @@ func c20ClassifyExit(x *engine.Exec, s *world.Snap, p world.Pos, err error) stri
 			return "payout-on-rounded-up-token-amount"
 		}
 		return ""
+	case (short || strings.Contains(e, "negative coin amount")) && bigAsset(s, p.Denom):
+		// K-C05-share-ratio-precision: tokens -> shares -> tokens through 18-decimal ratios loses whole units from 2e16 base
+		// units on; the query and Undelegate price identically (checked separately), the round trip inside Undelegate does not
+		return ratioCause
 	case short && D != nil && D.Sign() > 0 && D.Cmp(ratI(1)) < 0:
 		return "full-exit-below-one-delegator-share"
 	case short && D != nil && vt != nil && vt.Sign() > 0 && world.RatInt(p.Reported).Cmp(p.Value) > 0 && ratMul(ratQuo(D, vt), ratSub(world.RatInt(p.Reported), p.Value)).Cmp(ratQuo(ratI(1), ratI(100))) >= 0 && needsMoreWholeShares(p, D, vt):
@@ -560,12 +576,31 @@ func init() {
 					Required: []string{"query.unbondings.nonempty", "state.validator_removed_from_staking", "state.pending_unbonding_from_removed_validator"},
 				}
 			}
+			// 18-decimal magnitudes with share ratios that do not terminate (1/3, 2/3): the two pricing functions must agree
+			mcfg := c07Config()
+			magnitude := &engine.Scenario{
+				Property: "C20", Name: "c20-magnitude", Cfg: mcfg, Stores: world.ModuleStores,
+				Seeds:      [][]world.Op{{opDel(0, 0, "aaa", "1000000000000000000000"), opDel(1, 0, "aaa", "2000000000000000000000"), opDel(0, 1, "aaa", "7")}},
+				ClassNames: classNames, Budgets: tierPick(tier, []int{2, 1, 0, 1, 0}, []int{3, 1, 0, 2, 0}), MaxDepth: tierPick(tier, 3, 5),
+				NewRef: func(w *world.World, root *engine.Node) engine.Ref { return newPendRef() },
+				Ops: func(n *engine.Node) []world.Op {
+					return []world.Op{
+						{K: world.KUndelegate, D: 0, V: 0, Denom: "aaa", Amt: "333333333333333333333", Class: ClsUser},
+						{K: world.KDelegate, D: 1, V: 0, Denom: "aaa", Amt: "1", Class: ClsUser},
+						{K: world.KRedelegate, D: 1, V: 0, V2: 1, Denom: "aaa", Amt: "1000000000000000000000", Class: ClsUser},
+						{K: world.KSlash, V: 0, F: "0.333333333333333333", Class: ClsSlash},
+						{K: world.KBlock, Dt: int64(U), Class: ClsBlock},
+					}
+				},
+				Step: c20Step, SeedStep: true,
+				Required: []string{"query.balance_vs_undelegate_pricing", "probe.undelegate_balance"},
+			}
 			unionFull := unionFullScenario("C20", "c20-union-full-pipeline", tier, c20Step, func(w *world.World, root *engine.Node) engine.Ref { return newPendRef() }, tierPick(tier, 3, 5))
 			unionFull.Required = []string{"query.unbondings.nonempty", "probe.undelegate_balance"}
 			if tier == "thorough" {
-				return []*engine.Scenario{unionFull, removed([]int{3, 0, 1, 5, 0}, 9), mk("c20-queries", []int{4, 1, 1, 2, 0}, 7)}
+				return []*engine.Scenario{magnitude, unionFull, removed([]int{3, 0, 1, 5, 0}, 9), mk("c20-queries", []int{4, 1, 1, 2, 0}, 7)}
 			}
-			return []*engine.Scenario{unionFull, removed([]int{2, 0, 1, 4, 0}, 7), mk("c20-queries", []int{3, 1, 1, 2, 0}, 4)}
+			return []*engine.Scenario{magnitude, unionFull, removed([]int{2, 0, 1, 4, 0}, 7), mk("c20-queries", []int{3, 1, 1, 2, 0}, 4)}
 		},
 		Assumptions: []string{
 			"reference enumeration: the list-based model of pending unbondings/redelegations (the one C02/C07/C15 validate against the store) and a raw decode of the delegation records",
